@@ -523,6 +523,42 @@ def r2(ctx: Ctx, roles) -> None:
     ctx.ob("C09.R2", sm, "write-failure handler always raises", not falls, "the handler can fall through and report success")
     write_path_unconverted(ctx, "C09.R2")
     error_construction_is_total(ctx)
+    cleanup_after_await_is_guarded(ctx, "C09.R2")
+
+
+def cleanup_after_await_is_guarded(ctx: Ctx, rule: str) -> None:
+    """While a coroutine is suspended the connection may be torn down and the attributes that hold it reset to None.
+    The clean-up of a `try` whose body awaits (its `finally` and `except` blocks) therefore reaches through an
+    attribute declared Optional only under a test of that attribute in the same block - otherwise the raw
+    AttributeError replaces the classified error that was on its way to the caller."""
+    from ..totality import _guards, optional_attrs
+
+    n_blocks = 0
+    all_bad: list[str] = []
+    for f in ctx.repo.all_funcs():
+        if f.cls is None or not f.is_async:
+            continue
+        opt = optional_attrs(ctx, f.cls.name)
+        if not opt:
+            continue
+        bad: list[str] = []
+        for t in own_nodes(f.node):
+            if not isinstance(t, ast.Try) or not any(isinstance(x, ast.Await) for b in t.body for x in ast.walk(b)):
+                continue
+            for blk in [t.finalbody] + [h.body for h in t.handlers]:
+                if not blk:
+                    continue
+                n_blocks += 1
+                g = _guards(ast.Module(body=blk, type_ignores=[]))
+                for st in blk:
+                    for x in ast.walk(st):
+                        if isinstance(x, ast.Attribute) and isinstance(x.ctx, ast.Load) and isinstance(x.value, ast.Attribute) and norm(x.value.value) == "self" and x.value.attr in opt and not g.get(norm(x.value)):
+                            bad.append(f"{f.qualname} L{x.lineno} {norm(x)[:50]}")
+        if bad:
+            ctx.ob(rule, f, f"{f.qualname}: clean-up after an await tests an Optional attribute before reaching through it", False, f"{bad[:3]}: when the connection went away while the coroutine was suspended this raises a raw AttributeError in place of the classified error")
+        all_bad += bad
+    ctx.ob(rule, "client:APIClient", f"clean-up blocks that follow an await reach through Optional attributes only under a test ({n_blocks} blocks)", not all_bad, f"{all_bad[:3]}")
+    ctx.count(rule + ".cleanup_blocks", n_blocks, 6, "finally/except blocks of awaiting try statements in classes with Optional attributes")
 
 
 def error_construction_is_total(ctx: Ctx) -> None:
